@@ -8,7 +8,7 @@
 (* each step with the verdict the specification computes by applying, one      *)
 (* after the other, the same operators the actions HStep apply (StepRes,       *)
 (* StepMem).  For an untampered object: every sequence of OpenLen keys out of   *)
-(* KeyChoices (every party's key, another key of each party's kind, a foreign   *)
+(* HKeyChoices (every party's key, another key of each party's kind, a foreign   *)
 (* key) in every order, followed by a re-serialization opened with a party's    *)
 (* key.  For every tamper target and class: all parties' keys in        *)
 (* ascending and then descending order on the one parsed object.               *)
@@ -83,7 +83,7 @@ Run(o, m, steps) ==
 OpenOf(k)  == [op |-> "open", key |-> k]
 ReserOf(k) == [op |-> "reser", key |-> k]
 OpenN(o)   == IF NP(o) = 1 THEN OpenLen ELSE OpenLenMulti
-KeySeqs(o) == [1..OpenN(o) -> KeyChoices(o)]
+KeySeqs(o) == [1..OpenN(o) -> HKeyChoices(o)]
 Rights(o)  == [i \in 1..NP(o) |-> RightKey(i)]
 Rev(s)     == [i \in 1..Len(s) |-> s[Len(s) + 1 - i]]
 \* a step as the replayer reads it: <<op, key variant, party, expected verdict>>
